@@ -294,6 +294,18 @@ class KeyHashType(StringType, prim='key_hash'):
 
 
 class SignatureType(StringType, prim='signature'):
+    # a signature is its bytes: `edsig..`, `spsig..`, `p2sig..` and `sig..` notations of the same bytes are one value
+    def __eq__(self, other):  # type: ignore
+        if not isinstance(other, SignatureType):
+            return False
+        return forge_base58(self.value) == forge_base58(other.value)
+
+    def __lt__(self, other: 'SignatureType'):  # type: ignore
+        return forge_base58(self.value) < forge_base58(other.value)
+
+    def __hash__(self):
+        return hash(forge_base58(self.value))
+
     @classmethod
     def dummy(cls, context: AbstractContext) -> 'SignatureType':
         return cls.from_value(context.get_dummy_signature())
